@@ -269,6 +269,10 @@ def rules(rep, facts):
         r3_enum_access(rep, facts)
         rep.relabel('C13/R3', 'C17/R7', 'what the serializers write for enum variants is read back in every spelling: ')
         r7_forwarding(rep, facts, rid='C17/R8')
+        from .rules_c07 import r2c_key_stash
+        from .rules_c11 import r7_widening
+        r2c_key_stash(rep, facts, rid='C17/R9')
+        r7_widening(rep, facts, rid='C17/R10')
     if 'toml' in facts.crates:
         from .rules_c16 import map_identity
         R6 = rep.rule('C17/R6', 'the decoded text equals the value whatever order the serializer emitted the entries in: equality of toml::Map is the '
